@@ -78,7 +78,6 @@ func VerifHarness_ParseRuleLast() {
 	verifPreList = [][2]string{{"alert", "foo"}, {"expr", "up"}}
 	defer func() { verifPreList = nil }()
 	L := verifGen()
-	verifAssume(!L.headHit)
 	key, val := verifParse(L)
 	if key == nil {
 		return
@@ -129,7 +128,7 @@ func VerifHarness_ParseRule() {
 	L := verifGen()
 	findings := verifParam("findings")
 	if findings == 0 {
-		verifAssume(!L.headHit)
+		// (until F36 was repaired this branch assumed !L.headHit)
 	} else {
 		verifSig("C06-block-header-match", L.headHit)
 		verifSig("C06-shallow-continuation", L.shallow)
